@@ -125,6 +125,10 @@ def gen_case(rng, tier, ctx, i):
     case = {"poly": p, "points": pts, "fn": rng.choice(FUNCS), "via": rng.choice(["method", "alias"])}
     if rng.random() < 0.15 and "points_dtype" not in case:
         case["derive"] = rng.getrandbits(32)
+    if nd == 2 and rng.random() < 0.3:
+        if len(case["points"]) % 2:
+            case["points"] = case["points"] + [list(case["points"][0])]
+        case["rearrange"] = True
     flat_vals = numpy.array(pts, dtype=object).reshape(-1).tolist()
     if rng.random() < 0.3:
         # integer points stored in a narrower or unsigned integer type (where every coordinate fits)
@@ -161,6 +165,15 @@ def run_case(case, ctx):
         ctx.call(fn, getattr(pnd, fn), P, pts)
     else:
         ctx.call(fn, getattr(P, fn), pts)
+    if pts.ndim == 2 and pts.shape[0] >= 2 and pts.shape[0] % 2 == 0 and case.get("rearrange"):
+        # the same coordinates asked again on the same polyhedron in another arrangement (a stack of two groups, then single vectors)
+        stack = pts.reshape(2, pts.shape[0] // 2, pts.shape[1])
+        for f in FUNCS:
+            ctx.call(f, getattr(P, f), pts)
+            ctx.call(f, getattr(P, f), stack)
+            ctx.call(f, getattr(P, f), pts[0])
+            ctx.call(f, getattr(P, f), pts[:1])
+        ctx.count("count:same-coordinates-rearranged")
     if case.get("derive") is not None:
         # a polyhedron derived from the first one by ordinary array operations is classified against its own rows
         import random
